@@ -37,30 +37,52 @@ Init == r \in 1..Len(Runs) /\ l = 1 /\ rem = Runs[r].bytes /\ out = Runs[r].pref
 
 IsEvent(name) == l <= Len(Runs[r].events) /\ Ev.op = name /\ l' = l + 1 /\ UNCHANGED r
 
+(* Each action is the conjunction of a *result* condition (what a single call returns: owned by C03 / C04 / C05,  *)
+(* which have their own stimuli) and a *state* condition (what the call does to the caller's slice / buffer: the   *)
+(* laws of C18).  WhyNot names the first one that fails, so that a rejected history is attributed correctly.      *)
+DecRef == DecodeType(Dsc(Runs[r]), Runs[r].type, rem)
+EncRef == EncodeType(Dsc(Runs[r]), Runs[r].type, Ev.val)
+EncOutside(x) == x.faults \cap {"Unsupported", "BadValue", "InvalidEnumValue"} # {}
+
+DecResultOk(x) ==
+  \/ "Unsupported" \in x.faults
+  \/ x.faults = {} /\ Ev.res.kind = "ok" /\ SameVal(Ev.res.val, x.val)
+  \/ x.faults # {} /\ Ev.res.kind = "err" /\ Ev.res.cls \in x.faults
+(* decode_mut advances the slice to exactly decode's remainder, and leaves it untouched on error *)
+DecStateOk(x) ==
+  IF Ev.res.kind = "err" THEN Ev.after = Len(rem)
+  ELSE IF x.faults = {} THEN Ev.after = Len(x.rest)
+  ELSE Ev.after <= Len(rem)
+
 DecodeMut ==
   /\ IsEvent("decode_mut")
-  /\ LET x == DecodeType(Dsc(Runs[r]), Runs[r].type, rem) IN
-     IF "Unsupported" \in x.faults
-     THEN rem' = SubSeq(rem, Len(rem) - Ev.after + 1, Len(rem))          \* outside the class: follow the implementation
-     ELSE IF x.faults = {}
-     THEN /\ Ev.res.kind = "ok" /\ SameVal(Ev.res.val, x.val)
-          /\ Ev.after = Len(x.rest)
-          /\ rem' = x.rest
-     ELSE /\ Ev.res.kind = "err" /\ Ev.res.cls \in x.faults
-          /\ Ev.after = Len(rem)
-          /\ rem' = rem
+  /\ LET x == DecRef IN
+     /\ DecResultOk(x) /\ DecStateOk(x)
+     /\ rem' = SubSeq(rem, Len(rem) - Ev.after + 1, Len(rem))
   /\ UNCHANGED out
+
+EncResultOk(x) ==
+  \/ EncOutside(x)
+  \/ x.faults = {} /\ Ev.res.kind = "ok"
+  \/ x.faults # {} /\ Ev.res.kind = "err" /\ Ev.res.cls \in x.faults
+(* encoding appends to the buffer: what was there is still its prefix; on success exactly the encoding follows it *)
+EncStateOk(x) ==
+  /\ IsPrefix(out, Ev.buf)
+  /\ (x.faults = {} /\ Ev.res.kind = "ok") => Ev.buf = out \o x.bytes
 
 EncodeInto ==
   /\ IsEvent("encode_into")
-  /\ LET x == EncodeType(Dsc(Runs[r]), Runs[r].type, Ev.val) IN
-     IF x.faults \cap {"Unsupported", "BadValue", "InvalidEnumValue"} # {}
-     THEN IsPrefix(out, Ev.buf)
-     ELSE IF x.faults = {}
-     THEN Ev.res.kind = "ok" /\ Ev.buf = out \o x.bytes
-     ELSE Ev.res.kind = "err" /\ Ev.res.cls \in x.faults /\ IsPrefix(out, Ev.buf)
+  /\ LET x == EncRef IN EncResultOk(x) /\ EncStateOk(x)
   /\ out' = Ev.buf
   /\ UNCHANGED rem
+
+WhyNot ==
+  IF l > Len(Runs[r].events) THEN "done"
+  ELSE IF Ev.op = "decode_mut"
+       THEN (IF ~DecResultOk(DecRef) THEN "result" ELSE IF ~DecStateOk(DecRef) THEN "state" ELSE "step")
+  ELSE IF Ev.op = "encode_into"
+       THEN (IF ~EncResultOk(EncRef) THEN "result" ELSE IF ~EncStateOk(EncRef) THEN "state" ELSE "step")
+  ELSE "unknown"
 
 Next == DecodeMut \/ EncodeInto
 Spec == Init /\ [][Next]_svars
@@ -73,6 +95,6 @@ PrefixInv == IsPrefix(Runs[r].prefix, out)
 
 (* how far each history got: it is accepted iff l reaches Len(events) + 1; for a rejected one the highest l *)
 (* is the first event that is no step of the specification                                                *)
-Progress == PrintT(<<"AT", ToJson([rid |-> Runs[r].rid, l |-> l])>>)
+Progress == PrintT(<<"AT", ToJson([rid |-> Runs[r].rid, l |-> l, why |-> WhyNot])>>)
 
 =============================================================================
